@@ -1,5 +1,7 @@
+//@file src/half_connection/send_rate.rs
+//@props C03 C14
 #[cfg(test)]
-mod verif_replay {
+mod verif_native {
     use super::*;
 
     fn with_watchdog<F: FnOnce() + Send + 'static>(f: F) -> bool {
@@ -9,18 +11,18 @@ mod verif_replay {
     }
 
     #[test]
-    fn d5_bisection_zero_rtt() {
+    fn verif_d5_bisection_zero_rtt() {
         assert!(with_watchdog(|| { let _ = eval_tcp_throughput_inv(0.0, 736); }), "HANG: rtt = 0");
     }
 
     #[test]
-    fn d5_bisection_unreachable_target() {
+    fn verif_d5_bisection_unreachable_target() {
         // at rtt = 0.1 s the equation cannot go below ~60 B/s (p = 1); target 11 B/s = (MINIMUM_RATE)/2
         assert!(with_watchdog(|| { let _ = eval_tcp_throughput_inv(0.1, 11); }), "HANG: target below the p = 1 rate");
     }
 
     #[test]
-    fn d13_zero_ceiling_overflow() {
+    fn verif_d13_zero_ceiling_overflow() {
         let mut c = SendRateComp::new(0);        // peer advertised max_receive_rate = 0
         c.notify_frame_sent(0);
         c.step(10, Some(FeedbackData { rtt_ms: 10, receive_rate: 1000, loss_rate: 0.0, rate_limited: false }), |_| {});
@@ -30,7 +32,7 @@ mod verif_replay {
     }
 
     #[test]
-    fn d14_floor_after_nofeedback() {
+    fn verif_d14_floor_after_nofeedback() {
         let mut c = SendRateComp::new(1_000_000);
         c.notify_frame_sent(0);
         // first feedback with loss: enters the throughput-equation phase
